@@ -235,6 +235,21 @@ theorem only_unstable_writes_are_revealed_early (ops : List Op) (s : St) (t k : 
 theorem what_was_durable_stays_durable (ops : List Op) (s s' : St) (hr : run s ops = some s') :
     ∃ ext, s'.dur = s.dur ++ ext := run_dur_prefix ops s s' hr
 
+/-- The discipline on the code (tables regenerated from fstxn/commit.go and from every caller on
+    every run): the journal's `CommitWait` is called by `commitWait` alone, with the caller's `wait`,
+    and the locks are released after it; every committing function of package fstxn waits, except
+    `CommitUnstable`, which only the WRITE handler calls.  (The run-time counterpart is token `u` of
+    the lock traces.) -/
+theorem locks_are_given_back_after_the_waiting_commit :
+    (∀ f ∈ GoNfsd.Gen.Skeleton.commitPaths, GoNfsd.Model.Skeleton.commitPathCheck f = true) ∧
+    (∀ c ∈ GoNfsd.Gen.Skeleton.unstableCommitters, c ∈ GoNfsd.Model.Skeleton.unstableCommittersAllowed) := by decide
+
+/-- the rule bites: the seeded change C08k (`Commit` goes through `commitWait(false)` and flushes
+    afterwards) and a release before the commit are refused; the table is not empty -/
+example : GoNfsd.Model.Skeleton.commitPathCheck ("Commit", [(2, "false"), (2, "false"), (4, "")]) = false := by decide
+example : GoNfsd.Model.Skeleton.commitPathCheck ("commitWait", [(1, "postCommit"), (0, "wait")]) = false := by decide
+example : ("commitWait", [(0, "wait"), (1, "Abort"), (1, "postCommit")]) ∈ GoNfsd.Gen.Skeleton.commitPaths := by decide
+
 /-- Without the discipline it fails in four steps (the seeded changes C08k and C17k: the locks
     are given back, or not taken, while the commit is still in memory): transaction 1 writes key 5
     without waiting and releases; transaction 2 reads 7; a crash now recovers nothing. -/
